@@ -53,15 +53,15 @@ TRUSTED = [
     "with exact arithmetic on the generated domain |x| < 2^20, <= 12 fractional bits, <= 6 digits)",
     "sha256 is taken to be injective on the texts DeepHash builds for set members (the model compares the texts)",
     "bytes are ASCII in the model (decode is the identity); str.lower() is modelled for ASCII",
-    "the identity shortcut `level.t1 is level.t2` is modelled as: two atoms of identical type and value (the harness interns atoms so that "
-    "this is what `is` means); it is observable only through the TypeError of the path printer on bytes dict keys",
+    "the identity shortcut `level.t1 is level.t2` is not modelled (for tree-shaped inputs it can only hit immutable atoms, "
+    "for which every comparer reports nothing)",
     "the DeepHash memo table keyed by == (1 / 1.0 share one hash: finding K2) is not modelled: pairs with such aliases among set members are "
     "checked by the direct oracle only",
 ]
 ASSUMPTIONS = [
     "inputs are tree shaped (no shared or cyclic containers)",
-    "the order in which the common keys of two dicts are visited (t2 order in the code, t1 order in the model) matters only for WHICH of two "
-    "different exceptions is raised first; such cases compare 'raised' only",
+    "bytes dict keys and bytes set members are ASCII (non-UTF-8 bytes keys make key cleaning under ignore_string_type_changes raise "
+    "UnicodeDecodeError: outside the model, see NOTES.md)",
 ]
 
 
@@ -621,6 +621,8 @@ def features(a, b):
         f.add("has_enum")
     if any(isinstance(x, (datetime.datetime, datetime.date, datetime.time)) for x in at):
         f.add("has_datetime")
+    if any(isinstance(x, float) and (x != x or math.isinf(x)) for x in at):
+        f.add("has_nan_inf")
     if any(isinstance(k, (int, float)) for k in ks):
         f.add("numeric_key")
     if any(isinstance(k, bytes) for k in ks):
@@ -828,6 +830,18 @@ def m_dtkey(c):
     return c["exc"] == "TypeError" and _cleaning(c["spec"]) and "datetime_key" in c["features"] and c["clause"] in ("A", "C")
 
 
+def m_sig0_nan(c):
+    """significant_digits=0: number_to_string does int(round(x, 0)), which raises on nan / inf"""
+    return (c["exc"] in ("ValueError", "OverflowError") and c["spec"]["sig"] == 0 and "has_nan_inf" in c["features"]
+            and c["clause"] in ("A", "C"))
+
+
+def m_excl_set(c):
+    """a set member whose TYPE was changed (str <-> bytes, int <-> float) into / out of an excluded type"""
+    return (c["clause"] == "A" and c["exc"] is None and bool(c["spec"]["excl"])
+            and any(x in ("strty@set", "numty@set") for x in c["altered"]))
+
+
 def m_enum_type(c):
     """use_enum_value switches the type check off when ONE side is an enum member; the comparer chosen by the type of t1
     then meets an operand of another type"""
@@ -839,10 +853,6 @@ def m_numgroup_dt(c):
     type check and reach _diff_datetime / number_to_string with the wrong operand"""
     return (c["exc"] in ("TypeError", "AttributeError") and c["spec"]["numty"] and "has_datetime" in c["features"]
             and c["clause"] in ("A", "C"))
-
-
-def m_bytes_key(c):
-    return c["exc"] == "TypeError" and "bytes_key" in c["features"] and c["clause"] in ("A", "C")
 
 
 def _only(c, aspects, places):
@@ -874,7 +884,9 @@ def m_bytes_key_case(c):
 
 
 def m_enum_key(c):
-    return _only(c, ("enum",), ("key",)) and not _cleaning(c["spec"])
+    """use_enum_value at a dict key: not applied without a key-cleaning option; with one, the member's value is taken
+    but not cleaned further (E.C -> 2.5 against the key 2.5 -> 'number:2.500000000000')"""
+    return _only(c, ("enum",), ("key",))
 
 
 def m_nan_key(c):
@@ -908,8 +920,9 @@ def m_memo_set(c):
 MATCHERS = {
     "K8": m_k8,
     "C11-DATETIME-KEY": m_dtkey,
-    "C11-BYTES-KEY-RAISE": m_bytes_key,
     "C11-ENUM-TYPE": m_enum_type,
+    "C11-SIG0-NAN": m_sig0_nan,
+    "C11-EXCL-SET": m_excl_set,
     "C11-NUMGROUP-DATETIME": m_numgroup_dt,
     "C11-NUM-KEY": m_num_key,
     "C11-EPS-SET": m_eps_set,
@@ -980,7 +993,7 @@ def gen_pairs(rng, sp, n, rich):
     out = []
     for i in range(n):
         numeric_ok = (not k8_active(sp)) or rng.random() < 0.3
-        bytes_ok = sp["strty"] and rng.random() < 0.7
+        bytes_ok = rng.random() < (0.7 if sp["strty"] else 0.25)
         a = gen_value(rng, rng.choice([1, 2, 2, 3]), rng.choice([2, 3, 4]), bytes_ok, numeric_ok, rich, sp["nan"])
         r = rng.random()
         log = []
@@ -1022,10 +1035,6 @@ def has_bytes_key(*vals):
     return any(isinstance(k, bytes) for v in vals for k in walk_keys(v, []))
 
 
-def both_error_sources(a, b, sp):
-    return k8_active(sp) and "numeric_key" in features(a, b) and has_bytes_key(a, b)
-
-
 def report_oracle(ctx, results, jobs):
     for (fails, nontrivial, st), job in zip(results, jobs):
         a, b, sp, zip_, fam, name, log = job
@@ -1062,7 +1071,8 @@ WITNESSES = [
     ("C11-KEY-COLLISION", {"A": 1, "a": 2}, {"a": 2, "A": 1}, mk(case=True), "nonempty"),
     ("C11-ALIAS-KEY", {1: 0}, {True: 0}, mk(case=True, sig=2), "nonempty"),
     ("C11-TAG-SET", {"int:1"}, {1}, mk(sig=2), "nonempty"),
-    ("C11-BYTES-KEY-RAISE", {b"a": [1], "X": 1, "Y": 2}, {b"a": [2], "x": 1, "y": 2}, mk(case=True), "raises:TypeError"),
+    ("C11-EXCL-SET", {"0"}, {b"0"}, mk(strty=True, excl=["bytes"]), "nonempty"),
+    ("C11-SIG0-NAN", [float("nan")], [1.0], mk(sig=0), "raises:ValueError"),
 ]
 
 
@@ -1077,7 +1087,7 @@ def replay_witnesses(ctx):
             ctx.break_("correspondence", {"name": "refuted_witness", "finding": key, "t1": lit(a), "t2": lit(b), "spec": sp,
                                           "expected_on_impl": expect, "got": got,
                                           "meaning": "the implementation no longer exhibits this finding: the model (which has it) is out of date"})
-        if base[0] == "raised" and key != "C11-BYTES-KEY-RAISE":
+        if base[0] == "raised":
             ctx.break_("correspondence", {"name": "refuted_witness", "finding": key, "plain_run_raises": base[1]})
     ctx.note("refuted_witnesses_replayed", n)
 
@@ -1106,14 +1116,8 @@ def run(ctx):
             if D.set_alias(a, b) and not sp["numty"]:
                 ctx.count("corr_skipped:set_alias(K2 memo)")
                 continue
-            if has_bytes_key(a, b) and not sp["strty"]:
-                ctx.count("corr_skipped:bytes_key_without_strty")
-                continue
-            if both_error_sources(a, b, sp):
-                ctx.count("corr_skipped:two_error_sources")
-                continue
             mjobs.append((a, b, sp, zip_, thr, fam, name))
-    # hand-made cases: bytes keys and the identity shortcut, K8, collisions
+    # hand-made cases: bytes keys, K8, collisions
     hand = [({b"a": 1}, {b"a": 1}, mk()), ({b"a": 1}, {b"a": 2}, mk()), ({b"a": [1]}, {b"a": [1]}, mk()),
             ({b"a": 1, "c": 1}, {"c": 1}, mk(strty=True)), ({b"a": 1}, {"a": 1}, mk(strty=True)),
             ({b"a": 1}, {"a": 2}, mk(strty=True)), ({b"A": 1}, {"a": 1}, mk(strty=True, case=True)),
